@@ -276,7 +276,7 @@ def clause_env(spec_root):
     import pmutt.constants as const
     env = {'spec': spec, 'const': const, 'np': np, 'log': np.log, 'exp': np.exp,
            'sqrt': np.sqrt, 'pi': math.pi,
-           'implies': lambda a, b: (not a) or b,
+           'implies': lambda a, b: (not a) or b, 'eq': approx_eq,
            'at': lambda r, i: r[i] if hasattr(r, '__len__') else r,
            'isclose': lambda a, b, tol=1e-9: approx_eq(a, b, tol)}
     return env
